@@ -57,9 +57,9 @@ CLAIMED["C01"] = dict(
           "length bound that the validation algorithm (WasmValidate.tla) admits - including unreachable code - plus ALU vectors over boundary operands and random longer bodies, and "
           "executes each on the reference for 4 argument vectors. Each program is assembled and run through parse/validate/compile/run of the real engine under ValidationConfig V0/V1 x "
           "{no metering, cost V0, cost V1}; result value, trap-ness, final memory (which includes the globals via a wrapper function) must equal the reference. The four recorded conformance "
-          "defects (D1-D4) are attributed only through their root-cause predicates evaluated on the reference run (CompileModel.tla) and pinned witnesses are run every time."),
+          "defects (D1-D5) are attributed only through their root-cause predicates evaluated on the reference run (CompileModel.tla) and pinned witnesses are run every time."),
     note=("Bounded: one module template (4 functions, 2 globals, 1-2 pages, 4-entry table), bodies of length <= 4-7 per alphabet exhaustively and <= 14-24 randomly; i64 operands from boundary classes. "
-          "A different defect that only shows on runs where a D1/D2/D4 hazard predicate also holds would be attributed to the recorded finding (DESIGN 3.6). Trap classes are compared as trap-ness only. "
+          "A different defect that only shows on runs where a D1/D2/D4/D5 hazard predicate also holds would be attributed to the recorded finding (DESIGN 3.6). Trap classes are compared as trap-ness only. "
           "Trusted: TLC, checks/wasmasm.py, harness, shims; the H2 assertions make out-of-bounds accesses deterministic panics."),
     ref="4 C01")
 CLAIMED["C02"] = dict(
@@ -248,14 +248,15 @@ CLAIMED["C08"] = dict(
 
 CLAIMED["C18"] = dict(
     engine="base",
-    technique="TLA+ spec Statements (attribute values ordered as their field encodings, truth and 64-bit provability of reveal / range / membership / non-membership atoms, perturbations) enumerated by TLC; rows replayed on StatementWithContext prove / verify over real Pedersen commitments, both proof versions; Version1's unbound range proofs recorded as known finding R1",
+    technique="TLA+ spec Statements (attribute values ordered as their field encodings, truth and 64-bit provability of reveal / range / membership / non-membership atoms, perturbations) enumerated by TLC; rows replayed on StatementWithContext prove / verify over real Pedersen commitments, both proof versions; Version1's unbound range proofs recorded as known finding R1; TLA+ spec PresentationV1 (the V1 verification pipeline against an anchored request, one action per check, model-checked against its declarative reading) with every scenario of at most two deviations replayed on RequestV1::prove_with_rng / verify_presentation_with_request_anchor for account based and identity based credentials",
     text=("Statements.tla fixes the order of attribute values (length byte first, then bytes), decides the truth of each atom at lower = value, value = upper - 1, value = upper, singleton and larger sets, and marks "
           "range atoms provable only when bounds and value are within 2^64 of each other (the documented 64-bit range technique). Rows - attribute list, one or two atoms, perturbation in {challenge, credential id, "
           "commitments, statement, proof bytes, proof version} - are replayed: a proof must be produced and verify exactly for provable unperturbed rows, revealed values are the committed ones, everything else "
           "must not verify. With ProofVersion::Version1, statements made only of range atoms verify under a different challenge or credential id (their range proofs use a private transcript): recorded as R1."),
     note=("Presentations are covered for account and web3 credentials of web3id (request -> prove_with_rng -> Presentation::verify, issuer-signed commitments, holder linking signatures) with perturbed context, public "
-          "data, credential id / holder, statement, borrowed proofs and borrowed linking proofs; the v1 presentation / anchor format and identity-credential presentations are not bound. An account credential id is "
-          "not part of the proof (the verifier looks commitments up by it)."),
+          "data, credential id / holder, statement, borrowed proofs and borrowed linking proofs. The V1 format (web3id::v1: account based and identity based credentials, context, request anchor, allowed kinds and issuers, "
+          "requested statements, validity period, network) is bound through PresentationV1.tla: 3 526 scenarios with at most two deviations plus about 700 statement rows; the failure kind is compared only where "
+          "the specification says exactly one check fails. The verification audit record / audit anchor is not bound. An account credential id is not part of the V0 proof (the verifier looks commitments up by it)."),
     ref="4 C18")
 
 NOT_YET = {
